@@ -537,6 +537,12 @@ impl StreamsState {
         }
     }
 
+    /// Whether `write_control_frames` will queue a STREAMS_BLOCKED frame that is not in the pending
+    /// retransmits yet
+    pub(in crate::connection) fn streams_blocked_queued(&self) -> bool {
+        self.streams_blocked.iter().any(|&x| x)
+    }
+
     /// Whether any stream data is queued, regardless of control frames
     pub(crate) fn can_send_stream_data(&self) -> bool {
         // Reset streams may linger in the pending stream list, but will never produce stream frames
